@@ -18,7 +18,6 @@ ASSUMPTIONS = ['operations reach every replica within the forgiveness period (pr
 
 OS = 'datacake_crdt::orswot::OrSWotSet::'
 NV = 'datacake_crdt::orswot::NodeVersions::'
-PRED = 'is_ts_before_last_observed_event'
 
 
 def field_names(facts, adt):
@@ -44,8 +43,16 @@ def check(ctx):
 
     # ---- P2 ---------------------------------------------------------------------
     users = {'purge_old_deletes': purge, 'will_apply': facts.body(OS + 'will_apply'),
-             'check_self_then_insert_to': facts.body(OS + 'check_self_then_insert_to'), 'merge': facts.body(OS + 'merge')}
+             'merge': facts.body(OS + 'merge')}
+    import c05 as _c05
+    _d = facts.body(OS + 'diff')
+    if _d is not None:
+        for _b, _t in _d.calls():
+            _n = cname(_t)
+            if _n and _n.startswith('datacake_crdt::') and any(op_local(a) is not None and 'alloc::vec::Vec<' in _d.local_ty(op_local(a)) and _d.local_ty(op_local(a)).startswith('&mut') for a in _t['args']):
+                users['diff-per-key-test'] = facts.body(_n)
     pp = gate.gate_predicates(facts, purge)
+    PRED = sorted(pp)[0] if len(pp) == 1 else 'is_ts_before_last_observed_event'     # the cut-off predicate, found by role
     ctx.ob('C08.P2', 'purge|predicate', set(pp) == {PRED} or len(pp) == 1, site(purge),
            'purge selects tombstones with NodeVersions predicate(s) %s' % sorted(pp))
     for uname, ub in users.items():
@@ -132,7 +139,17 @@ def check(ctx):
         ctx.bad('C08.P2', 'predicate|strict', '', 'no comparison found in the cut-off predicate (fail closed)')
 
     # ---- P3 ---------------------------------------------------------------------
-    cs = facts.body(NV + 'compute_safe_last_stamp')
+    cs = None
+    pred_body = facts.body(NV + PRED)
+    pred_fields = gate.self_fields_accessed(facts, pred_body) if pred_body is not None else set()
+    nvn = field_names(facts, 'datacake_crdt::orswot::NodeVersions')
+    for b_ in facts.bodies.values():
+        if b_.crate == 'datacake_crdt' and b_.name.startswith(NV) and b_.kind == 'method' and not b_.d['promoted']:
+            for _bb, _j, s_ in b_.assigns():
+                if s_['rv']['k'] == 'ref' and s_['rv']['mut'] and s_['rv']['pl']['l'] == 1 and len(s_['rv']['pl']['p']) == 2 \
+                        and isinstance(s_['rv']['pl']['p'][1], dict) and nvn[s_['rv']['pl']['p'][1]['f']] in pred_fields \
+                        and any(cname(t_) and cname(t_).endswith('BTreeMap::insert') for _x, t_ in b_.calls()):
+                    cs = b_
     if cs is None:
         ctx.bad('C08.P3', 'anchor', '', 'compute_safe_last_stamp not found')
         return
